@@ -14,7 +14,10 @@ fn main() {
         install_crash_reporter();
     }
     let code = match args.engine.as_str() {
-        "noop" => 0,
+        "noop" => {
+            println!("noop: debug_assertions={}", cfg!(debug_assertions));
+            0
+        }
         "hist" => engine_hist(&args),
         "thin" => engine_thin(&args),
         "slices" => engine_slices(&args),
